@@ -42,5 +42,5 @@ For each change i (1..{n}) leave these files in `{wt}/.mut/<i>/`:
   - `patch.diff`  — `git diff` of the library change only (no test files), relative to the worktree root;
   - the demonstration test file(s), with a note of where they must be placed (path relative to the repo root) in `README.md`;
   - `README.md` — which clause of the property breaks, what exactly is needed for it to manifest, the exact commands you ran and their outcome (suite passes with the change: yes/no; demonstration fails with the change and passes without: yes/no).
-Make sure the worktree itself is left clean of your change at the end (git checkout -- . ; remove added test files) except for the `.mut/` directory.
+Never use `git stash` (the stash is shared by all worktrees of the repository; use `git diff > file` and `git checkout -- .` / `git apply` instead). Make sure the worktree itself is left clean of your change at the end (git checkout -- . ; remove added test files) except for the `.mut/` directory.
 Do not waste effort on changes you cannot demonstrate. If you cannot find {n}, deliver fewer. Finish with a short plain-text summary listing each change in one or two sentences.""")
